@@ -3,7 +3,7 @@
    fixes/C23-*.patch; Spec.spec_step is Substrate's AuthoritySet (authorities.rs, fork-tree).
    `prefix` = the pinned code, only used by the ..._prefix_refuted witnesses. *)
 From Coq Require Import NArith List Bool Arith.
-From C23 Require Import Model Spec Enum Proofs Bounded Local Reach Chain Forced OnePerFork Forks Forced2 MixedChain.
+From C23 Require Import Model Spec Enum Proofs Bounded Local Reach Chain Forced OnePerFork Forks Forced2 MixedChain MixedForks.
 Import ListNotations.
 Local Open Scope N_scope.
 
@@ -351,6 +351,43 @@ Example C23_chain_mixed_nonvacuous :
   option_map s_setid (run_spec t sched forced sinit evs) = Some 2 /\
   snd (run_go fixed t [(1%nat, mkpc 1 0 5 0)] [(2%nat, mkpc 2 0 6 1)] ginit [Import 1; Import 2]) = [ROk; RErrForced] /\
   run_spec t [(1%nat, mkpc 1 0 5 0)] [(2%nat, mkpc 2 0 6 1)] sinit [Import 1; Import 2] = None.
+Proof. vm_compute. repeat split; reflexivity. Qed.
+
+(* --- fifth round: the MIXED class on ARBITRARY block trees, by induction.  For EVERY well-formed
+   block tree (forks included), ANY scheduled and forced announcements (a block may carry both) and
+   EVERY history of possible imports and finalisations of ANY length outside the guard of the known
+   finding, the repaired Go model and the Substrate specification agree after every event on
+   success/failure, current set id, authorities of every set id and set id per block number
+   (agree_run3g: the observables the statement names; NextGrandpaAuthorityChange is proved on
+   chains and, per kind of change, in C23_refines_forced_histories).  Subsumes
+   C23_refines_scheduled_forks, and C23_refines_forced_histories / C23_refines_chain_mixed for these
+   three observers.  Relations carried: s_roots = filter known g_roots and
+   g_forced = filter live s_forced; new here: ApplyForcedChanges' dependency check across forks
+   (gossamer's non-strict `ancestor of` on all roots = Substrate's strict descent on the roots it
+   keeps, because a block never holds both a pending scheduled and a pending forced change) and the
+   reset of both containers, and Substrate's forced-change filter that runs only when its
+   standard-change tree changed (either list it keeps has the same live part). --- *)
+Theorem C23_refines_mixed_forks : forall t sched forced evs, wf t = true -> sched_ok sched -> forced_ok forced ->
+  agree_run3g t sched forced [O] O ginit sinit evs.
+Proof. exact mixed_forks_refines. Qed.
+Print Assumptions C23_refines_mixed_forks.
+
+(* non-vacuity: two forks of block 1; fork A (blocks 2, 4) schedules a change in block 2 and
+   announces a forced change in block 4 that depends on it (best finalized 2 >= its effective
+   number): importing block 6 (child of 4, effective block of the forced change) fails on both sides
+   while the scheduled change is pending; fork B (blocks 3, 5) announces a forced change in block 3
+   that is enacted at block 5 and cancels everything pending *)
+Example C23_mixed_forks_nonvacuous :
+  let t := [O; 1%nat; 1%nat; 2%nat; 3%nat; 4%nat] in
+  let sched := [(2%nat, mkpc 2 0 5 0)] in
+  let forced := [(4%nat, mkpc 4 1 6 2); (3%nat, mkpc 3 1 7 0)] in
+  wf t = true /\
+  snd (run_go fixed t sched forced ginit [Import 1; Import 2; Import 3; Import 4; Import 6]) = [ROk; ROk; ROk; ROk; RErrForced] /\
+  run_spec t sched forced sinit [Import 1; Import 2; Import 3; Import 4; Import 6] = None /\
+  g_setid (fst (run_go fixed t sched forced ginit [Import 1; Import 2; Import 3; Import 4; Import 5])) = 1 /\
+  g_roots (fst (run_go fixed t sched forced ginit [Import 1; Import 2; Import 3; Import 4; Import 5])) = [] /\
+  g_forced (fst (run_go fixed t sched forced ginit [Import 1; Import 2; Import 3; Import 4; Import 5])) = [] /\
+  option_map s_setid (run_spec t sched forced sinit [Import 1; Import 2; Import 3; Import 4; Import 5]) = Some 1.
 Proof. vm_compute. repeat split; reflexivity. Qed.
 
 (* --- refinement, exhaustive small scope.  For EVERY well-formed block tree with at most 3
